@@ -258,9 +258,6 @@ theorem changed_of_upNode {p : Path} {st N : Node} {g : Node → Node} {s : St}
     Changed p st g s :=
   ⟨h.1, N, hv, specStat_of_upNode h hw⟩
 
-/-- a shape-preserving change does not make a whiteout -/
-theorem keepShape_not_whiteout {f : Layer → Except Nat Layer} (hs : KeepShape f) : True := trivial
-
 theorem doSetattr_eff (p : Path) (st : Node) (f : Path → Layer → Except Nat Layer)
     (hs : ∀ rp, KeepShape (f rp)) (hk : ∀ rp, KeepRoot (f rp)) (g : Node → Node)
     (hg : PointEffect (f p) p g) (hgw : ∀ N, N.isWhiteout = false → (g N).isWhiteout = false) :
